@@ -124,7 +124,9 @@ def run(ctx, model=None):
     N = 250 if ctx.quick() else 6000
     for k in range(N):
         r = k % 5
-        if r in (0, 1):
+        if k % 11 == 0:
+            g = gen.multi_final_game(rng)
+        elif r in (0, 1):
             g = gen.stopping_game(rng, extra_finals=0.25)
         elif r in (2, 3):
             g = gen.free_game(rng)
@@ -143,6 +145,13 @@ def run(ctx, model=None):
         g = gen.finish([0, 0, 0], [PR, PR, PR], [[(gam, 0), (r_, 1), (r_, 2)], [(Fr(1), 1)], [(Fr(1), 2)]], [1],
                        {"family": "slow_cycle", "gamma": str(gam)})
         check_case(ctx, g, model, limit=300.0)
+    import analysis as _an
+    _pool = []
+    _r2 = random.Random(ctx.seed + 4242)
+    while len(_pool) < 14:
+        _pool.append(gen.stopping_game(_r2, n_inner=_r2.randint(2, 5), dead_frac=_r2.choice([0.0, 0.6])))
+    for _k in range(4 if ctx.quick() else 40):
+        _an.batch_vs_alone(ctx, _r2.sample(_pool, _r2.randint(2, 5)), ['probabilities'], 'run_games-probabilities-equal-solo-run')
     # thresholds
     for k in range(20 if ctx.quick() else 300):
         g = gen.stopping_game(rng, extra_finals=0.25)
